@@ -364,7 +364,8 @@ def run(chk):
         return tlc.mc("WidgetTree", GEN_CFG.format(sim="FALSE", profile="tiny", leaf="tiny", d=1, kids=2, sib=0, nodes=8, kinds="all")
                       .replace("INVARIANT TypeOK\nINVARIANT SizingLaws\n", "INVARIANT NoOverClaim\n"), workers=2, timeout=900)
 
-    with cf.ThreadPoolExecutor(5) as ex:
+    with cf.ThreadPoolExecutor(6) as ex:
+        f_pad = ex.submit(enumerate_terms, chk, "GEN_padding_widths", workers=2, profile="pad", leaf="widths", d=1, kids=1, sib=0, nodes=3, kinds="pad")
         f_sims = ex.submit(simulate_terms, chk, 400, chk.seed, 9, 4, profile="full", leaf="full", d=3, kids=3, sib=2, nodes=9) if quick else None
         f_shards = ex.submit(enumerate_terms, chk, "GEN_shards_depth3", workers=3, profile="min", leaf="shards", d=3, kids=2, sib=0, nodes=8, kinds="shards")
         f_leaves = ex.submit(enumerate_terms, chk, "GEN_leaves_full", workers=2, profile="full", leaf="full", d=0, kids=0, sib=0, nodes=1)
@@ -374,6 +375,7 @@ def run(chk):
         f_over = ex.submit(overclaim)
         leaves, d1, over = f_leaves.result(), f_d1.result() + f_scroll.result(), f_over.result()
         wt_all = [t for t in f_wt.result() if t["c"]]
+        pad_run = [t for t in f_pad.result() if t["c"]]       # small and cheap (rendered as fixed widgets only): never sampled
         if f_sims is not None:
             f_sims.result()
         shards_all = [t for t in f_shards.result() if wtree.depth(t) >= 2 and t["k"] != "Columns"]        # clips and stacks (rows and cells alone are in the other families)
@@ -412,7 +414,7 @@ def run(chk):
     terms = witness + leaves_run + d1 + deep + sims
     shards_run = shards_run + shard_sims
     chk.note(f"terms: leaves {len(leaves_run)}/{len(leaves)}, depth1 {len(d1)}, exhaustive deeper {len(deep)}, simulated {len(sims)}, "
-             f"weights family {len(wt_run)}/{len(wt_all)}, shards family {len(shards_run)}/{len(shards_all)}")
+             f"weights family {len(wt_run)}/{len(wt_all)}, shards family {len(shards_run)}/{len(shards_all)}, padding family {len(pad_run)}")
     # the sharing of columns is a matter of narrow widths (every width up to 6), the cutting of stacked canvases one of few rows (every height up to 5)
     wt_grid = ([1, 2, 3, 4, 5, 6, 8], [1, 3] if quick else [1, 2, 3, 5])
     shard_grid = ([3, 8] if quick else [1, 3, 4, 8], [1, 2, 3, 4, 5])
@@ -423,6 +425,10 @@ def run(chk):
             jobs.append((t, enc, cols, rows))
     for grid, fam in ((wt_grid, wt_run), (shard_grid, shards_run)):
         jobs += [(t, ENCS[i % 3], grid[0], grid[1]) for i, t in enumerate(fam)]
+    # the padding family is about the size a Padding derives from its child: the empty grid leaves the fixed rendering (thorough: every encoding,
+    # the widths of the non-ASCII texts differ between them; and as a flow widget at two widths)
+    pad_grid = ([], []) if quick else ([3, 8], [])
+    jobs += [(t, enc, pad_grid[0], pad_grid[1]) for i, t in enumerate(pad_run) for enc in ([ENCS[i % 3]] if quick else ENCS)]
     traces = observe_all(jobs, 4 if quick else 8)
     phase("observe_renderings")
     # ---- histories: the same composite terms rendered again while the canvases of earlier renderings are held ----
@@ -435,7 +441,7 @@ def run(chk):
     traces += [tr for tr in htraces if tr["build_exc"] or tr["ev"]]
     jobs += [j for tr, j in zip(htraces, hjobs) if tr["build_exc"] or tr["ev"]]
     fam_of = {}
-    for name, fam in (("weights", wt_run), ("shards", shards_run)):
+    for name, fam in (("weights", wt_run), ("shards", shards_run), ("padding", pad_run)):
         for t in fam:
             fam_of[json.dumps(t, sort_keys=True)] = name
     for tr in traces:
@@ -482,6 +488,22 @@ def _coverage(chk, built, terms):
         pile_w0 = any(x["k"] == "Pile" and any(op[0] == "weight" and op[1] == 0 for op in x["o"][1]) for x in subs)
         col_desc = any(x["k"] == "Columns" and _heavier_first(x["o"][3]) for x in subs)
         col_opts = any(x["k"] == "Columns" and len(x["c"]) > 1 and (x["o"][0] != 1 or x["o"][1] > 1) for x in subs)
+        if fam == "padding" and tr["term"]["k"] == "Padding" and tr["term"]["o"][1].startswith("rel"):
+            # coverage only: the pairs (child width, percentage) whose quotient falls exactly between two columns
+            pct = int(tr["term"]["o"][1][3:])
+            for e in tr["ev"]:
+                if e["t"] == "render" and e["mode"] == "fixed" and not e["calc_exc"] and not e["exc"]:
+                    bump("family.padding.fixed_renderings")
+                    try:
+                        wtree.set_enc(tr["enc"])
+                        cw = wtree.World().build(tr["term"]["c"][0], tr["enc"]).pack((), bool(e["focus"]))[0]
+                    except Exception:  # noqa: BLE001
+                        continue
+                    if (cw * 200) % pct == 0 and (cw * 200 // pct) % 2 == 1:
+                        bump("family.padding.quotient_exactly_half")
+                        bump("family.padding.quotient_exactly_half." + ("above_even" if (cw * 100 // pct) % 2 == 0 else "above_odd"))
+                        if e["pc"] == (cw * 200 // pct + 1) // 2 + tr["term"]["o"][3] + tr["term"]["o"][4]:
+                            bump("family.padding.quotient_exactly_half.decides_the_width")
         for e in tr["ev"]:
             if e["t"] in ("render", "frame") and not e.get("skip"):
                 for again in e["calc_again"]:
@@ -536,10 +558,13 @@ def _coverage(chk, built, terms):
                        "measured again); two more TLC-enumerated families: 'weights' (every depth<=1 Pile / Columns over the space-sharing options: pack, given, "
                        "weights 0..5 in both orders, min_width 1..3, dividechars 0..2; at every width 1..6) and 'shards' (stackers Frame / Pile / Overlay over "
                        "clippers ListBox / Filler / BoxAdapter over rows of cells of different heights, the grammar Role of spec/WidgetTree.tla, at every height 1..5); "
+                       "'padding' (every Padding over one fixed-capable leaf of each width of the alphabet x relative widths 100/80/60/40/30/8 % and 'pack' x minimum width x margins, "
+                       "rendered as a fixed widget: the total width is derived from the child's; TLC-enumerated, never sampled); "
                        "rows() / pack() asked before the rendering, after it and after _invalidate(); non-trivial = distinct "
                        "(composite term, encoding, mode, size, focus) events")
     chk.cov["exhaustive"] = True
-    for need in ("family.weights.traces", "family.shards.traces", "family.shards.cut_spanning_view_and_canvas_below", "canvas_with_view_spanning_shards",
+    for need in ("family.weights.traces", "family.shards.traces", "family.padding.traces", "family.padding.fixed_renderings", "family.padding.quotient_exactly_half.above_even",
+                 "family.padding.quotient_exactly_half.above_odd", "family.padding.quotient_exactly_half.decides_the_width", "family.shards.cut_spanning_view_and_canvas_below", "canvas_with_view_spanning_shards",
                  "canvas_with_cut_spanning_view_and_canvas_below", "pile_zero_weight_item_as_flow_widget", "columns_heavier_before_lighter_at_narrow_width",
                  "columns_min_width_or_dividechars_at_narrow_width", "calc_again.after", "calc_again.inval", "frame_with_header_and_footer",
                  "frames.histories", "frames.sub_judged", "frames.sub_served_from_cache", "frames.inval_children_from_cache", "frames.again",
